@@ -1601,3 +1601,276 @@ func c10r11(p *Program, r *Report) {
 		r.Unresolved("no placement walk with a seen-set test found")
 	}
 }
+
+// c17r14: swap-remove on hostConnPool.conns. Where the list is cut by one (`conns = conns[:B]`), the element at B has
+// been stored into another slot K (K is not B) before the cut on every path (or in the same tuple assignment): what
+// is cut off is then a duplicate and the connection in slot K is the one that leaves the pool. Writing the other way
+// round (conns[B] = conns[K]) cuts off a live connection and keeps the closed one.
+func c17r14(p *Program, r *Report) {
+	connsF := p.Field("hostConnPool", "conns")
+	if connsF == nil {
+		r.Unresolved("hostConnPool.conns not found")
+		return
+	}
+	n := 0
+	for _, fi := range p.SortedFuncs() {
+		if fi.Decl.Body == nil || fi.Pkg != p.Root {
+			continue
+		}
+		info := fi.Pkg.TypesInfo
+		var norm func(e ast.Expr, depth int) string
+		norm = func(e ast.Expr, depth int) string {
+			e = ast.Unparen(e)
+			if id, isId := e.(*ast.Ident); isId && depth < 4 {
+				if obj, isVar := info.Uses[id].(*types.Var); isVar && !obj.IsField() && obj.Parent() != obj.Pkg().Scope() && singleAssigned(info, fi.Decl.Body, obj) {
+					if d := localDef(info, fi, id); d != nil {
+						return norm(d, depth+1)
+					}
+				}
+			}
+			if b, isB := e.(*ast.BinaryExpr); isB {
+				return "(" + norm(b.X, depth) + b.Op.String() + norm(b.Y, depth) + ")"
+			}
+			if c, isC := e.(*ast.CallExpr); isC && len(c.Args) == 1 && calleeName(info, c) == "builtin.len" {
+				return "len(" + norm(c.Args[0], depth) + ")"
+			}
+			return strings.ReplaceAll(exprStr(e), " ", "")
+		}
+		isConns := func(e ast.Expr) bool {
+			e = ast.Unparen(e)
+			if fieldOf(info, e) == connsF {
+				return true
+			}
+			// a local alias of the field
+			if id, isId := e.(*ast.Ident); isId {
+				if d := localDef(info, fi, id); d != nil && fieldOf(info, d) == connsF {
+					return true
+				}
+			}
+			return false
+		}
+		type cut struct {
+			as    *ast.AssignStmt
+			bound string
+		}
+		var cuts []cut
+		inspectNoLit(fi.Decl.Body, func(x ast.Node) bool {
+			as, ok := x.(*ast.AssignStmt)
+			if !ok || len(as.Lhs) != len(as.Rhs) {
+				return true
+			}
+			for i, l := range as.Lhs {
+				if fieldOf(info, l) != connsF {
+					continue
+				}
+				// the order-preserving form: append(conns[:K], conns[K+1:]...)
+				if ac, isC := ast.Unparen(as.Rhs[i]).(*ast.CallExpr); isC && calleeName(info, ac) == "builtin.append" && ac.Ellipsis.IsValid() && len(ac.Args) == 2 {
+					a0, ok0 := ast.Unparen(ac.Args[0]).(*ast.SliceExpr)
+					a1, ok1 := ast.Unparen(ac.Args[1]).(*ast.SliceExpr)
+					if ok0 && ok1 && isConns(a0.X) && isConns(a1.X) && a0.High != nil && a1.Low != nil && a1.High == nil {
+						n++
+						k := norm(a0.High, 0)
+						r.Check(norm(a1.Low, 0) == "("+k+"+1)", as, fi.Name+" closes the gap of exactly the removed connection", "append(conns[:K], conns[K+1:]...)", "the two halves joined do not leave out exactly one slot")
+					}
+					continue
+				}
+				se, isS := ast.Unparen(as.Rhs[i]).(*ast.SliceExpr)
+				if !isS || !isConns(se.X) || se.High == nil || se.Slice3 {
+					continue
+				}
+				if se.Low != nil {
+					if tv, has := info.Types[se.Low]; !has || tv.Value == nil || tv.Value.ExactString() != "0" {
+						continue
+					}
+				}
+				b := norm(se.High, 0)
+				if !strings.Contains(b, "len(") || !strings.Contains(b, "-1") {
+					continue
+				}
+				cuts = append(cuts, cut{as, b})
+			}
+			return true
+		})
+		if len(cuts) == 0 {
+			continue
+		}
+		g := p.GraphOf(fi)
+		for _, c := range cuts {
+			n++
+			// a store conns[K] = conns[B] with K other than B
+			moves := func(nd ast.Node) (moved, reversed bool) {
+				as, ok := nd.(*ast.AssignStmt)
+				if !ok || len(as.Lhs) != len(as.Rhs) {
+					return
+				}
+				for i, l := range as.Lhs {
+					ix, isIx := ast.Unparen(l).(*ast.IndexExpr)
+					if !isIx || !isConns(ix.X) {
+						continue
+					}
+					src, isSrc := ast.Unparen(as.Rhs[i]).(*ast.IndexExpr)
+					if !isSrc || !isConns(src.X) {
+						continue
+					}
+					k, from := norm(ix.Index, 0), norm(src.Index, 0)
+					if from == c.bound && k != c.bound {
+						moved = true
+					}
+					if k == c.bound && from != c.bound {
+						reversed = true
+					}
+				}
+				return
+			}
+			sol := Solve(g, Lattice[int]{
+				Join: func(a, b int) int {
+					if a < b {
+						return a
+					}
+					return b
+				},
+				Eq: func(a, b int) bool { return a == b },
+				Step: func(st int, step Step) int {
+					if step.Kind != StNode {
+						return st
+					}
+					if m, _ := moves(step.Node); m {
+						return 1
+					}
+					return st
+				},
+			})
+			st, _ := sol.Before(c.as)
+			same, rev := moves(c.as)
+			r.Check((st == 1 || same) && !rev, c.as, fi.Name+" moves the last connection into the freed slot before it shortens the list", "conns[K] = conns[last] (K other than last) dominates conns = conns[:last]",
+				"the list is shortened by one without the last element having been moved into the slot of the connection that is being removed: the closed connection stays in the pool (and keeps being picked) while a live one is dropped from it without being closed")
+		}
+	}
+	if n == 0 {
+		r.Unresolved("no swap-remove on hostConnPool.conns found")
+	}
+}
+
+// c06r15: closing never hangs. controlConn.quit is unbuffered and has one receiver, the heart-beat loop, which listens
+// only after it moved controlConn.state from X to S with a compare-and-swap. A blocking send on quit is therefore
+// safe only where the sender has itself won a compare-and-swap out of S (then the loop exists and nobody else sends):
+// any weaker condition (state was not yet closing, unconditional) blocks Session.Close for ever on a control
+// connection whose loop never started.
+func c06r15(p *Program, r *Report) {
+	quitF := p.Field("controlConn", "quit")
+	stateF := p.Field("controlConn", "state")
+	if quitF == nil || stateF == nil {
+		r.Unresolved("controlConn.quit / controlConn.state not found")
+		return
+	}
+	isStateCAS := func(info *types.Info, c *ast.CallExpr) bool {
+		if !strings.HasPrefix(calleeName(info, c), "atomic.CompareAndSwap") || len(c.Args) != 3 {
+			return false
+		}
+		u, ok := ast.Unparen(c.Args[0]).(*ast.UnaryExpr)
+		return ok && u.Op == token.AND && fieldOf(info, u.X) == stateF
+	}
+	constOf := func(info *types.Info, e ast.Expr) string {
+		if tv, has := info.Types[e]; has && tv.Value != nil {
+			return tv.Value.ExactString()
+		}
+		return ""
+	}
+	// the receiver and the state it establishes
+	established := map[string]bool{}
+	nrecv := 0
+	for _, fi := range p.SortedFuncs() {
+		if fi.Decl.Body == nil || fi.Pkg != p.Root {
+			continue
+		}
+		info := fi.Pkg.TypesInfo
+		listens := false
+		ast.Inspect(fi.Decl.Body, func(x ast.Node) bool {
+			if cc, ok := x.(*ast.CommClause); ok && cc.Comm != nil {
+				if ch := recvChan(cc.Comm); ch != nil && fieldOf(info, ch) == quitF {
+					listens = true
+				}
+			}
+			if u, ok := x.(*ast.UnaryExpr); ok && u.Op == token.ARROW && fieldOf(info, u.X) == quitF {
+				listens = true
+			}
+			return true
+		})
+		if !listens {
+			continue
+		}
+		nrecv++
+		for _, u := range p.unitsOf(fi) {
+			for _, c := range callsIn(u.Decl.Body) {
+				if isStateCAS(u.Pkg.TypesInfo, c) {
+					if v := constOf(u.Pkg.TypesInfo, c.Args[2]); v != "" {
+						established[v] = true
+					}
+				}
+			}
+		}
+	}
+	if nrecv == 0 || len(established) == 0 {
+		r.Unresolved("no receiver of controlConn.quit that establishes a state by compare-and-swap (receivers %d)", nrecv)
+		return
+	}
+	n := 0
+	for _, fi := range p.SortedFuncs() {
+		if fi.Decl.Body == nil || fi.Pkg != p.Root {
+			continue
+		}
+		info := fi.Pkg.TypesInfo
+		var sends []*ast.SendStmt
+		ast.Inspect(fi.Decl.Body, func(x ast.Node) bool {
+			if snd, ok := x.(*ast.SendStmt); ok && fieldOf(info, snd.Chan) == quitF {
+				sends = append(sends, snd)
+			}
+			return true
+		})
+		if len(sends) == 0 {
+			continue
+		}
+		// the compare-and-swaps out of the established state in this function, by spelling
+		won := map[string]bool{}
+		for _, c := range callsIn(fi.Decl.Body) {
+			if isStateCAS(info, c) && established[constOf(info, c.Args[1])] {
+				won[strings.ReplaceAll(exprStr(c), " ", "")] = true
+			}
+		}
+		g := p.GraphOf(fi)
+		facts := g.GuardFacts()
+		for _, snd := range sends {
+			// a send that is one alternative of a select with a default (or another ready case) does not block: not this rule
+			if cc, isCC := p.Parent(snd).(*ast.CommClause); isCC && cc.Comm == ast.Stmt(snd) {
+				continue
+			}
+			n++
+			f, _ := facts.Before(snd)
+			ok := false
+			for atom, v := range f.m {
+				a := strings.ReplaceAll(atom, " ", "")
+				if v && won[a] {
+					ok = true
+				}
+				// a boolean local that holds the result
+				if v && !ok {
+					ast.Inspect(fi.Decl.Body, func(m ast.Node) bool {
+						if id, isId := m.(*ast.Ident); isId && id.Name == atom {
+							if obj := info.Uses[id]; obj != nil && singleAssigned(info, fi.Decl.Body, obj) {
+								if d := localDef(info, fi, id); d != nil && won[strings.ReplaceAll(exprStr(d), " ", "")] {
+									ok = true
+								}
+							}
+						}
+						return !ok
+					})
+				}
+			}
+			r.Check(ok, snd, fi.Name+" sends the quit token only after winning the transition out of the started state", "dominated by a successful CompareAndSwap(&state, <state set by the receiver>, _)",
+				"the blocking send on controlConn.quit is not conditional on having moved the state out of the value the heart-beat loop sets when it starts listening: when the loop was never started (or has been told to quit already) nobody receives and close() blocks for ever")
+		}
+	}
+	if n == 0 {
+		r.Unresolved("no blocking send on controlConn.quit found")
+	}
+}
